@@ -149,8 +149,8 @@ def run(ctx):
                         "OMP_NUM_THREADS=1, verbose=false; both the shipped-flags and the sanitizer build run orders 0..4 (the zero-length VLA that order 0 used to declare in divided_diffs, glam.c:366, was repaired under C13; on a tree without that repair the sanitizer build aborts and the check reports it)",
                         "reproduction tolerance at the data points: %d*2^-24*max(||c||_inf, max|z|)" % K_REPRO,
                         "the n-d GLAM assembly identity (box / slicemultiply / reshape / Kronecker penalty chain = Kronecker normal equations) is a theorem about the model (glam_eq_kron_C09, any number of dimensions); glamM/glamR re-check it per instance (exact equality in Rat) as a regression test of the model",
-                        "positive definiteness: theorem normal_matrix_posDef_iff / _of_full_rank gives the reason (full column rank of the design matrix on the positively weighted data, or a penalty that sees the kernel); whether a generated instance satisfies it is still decided per instance by exact elimination (all pivots > 0)",
-                        "polynomial reproduction is a theorem for degree <= 1 per variable (poly_below_penalty_reproduced, _sum, constant_data_reproduced); the generated polynomial data of degree 2 and 3 (penalty orders 3, 4) rest on poly_below_penalty_reproduced_partial (existence of the coefficient vector assumed) and on the numerical reproduction test",
+                        "positive definiteness: normal_matrix_posDef_iff / _of_full_rank give the reason (full column rank of the design matrix on the positively weighted data, or a penalty that sees the kernel); that a generated instance is well-posed is decided by exact elimination (all pivots > 0), whose success is proved to imply positive definiteness (specFit_certifies_posDef)",
+                        "polynomial reproduction is a theorem for every degree below the penalty order (poly_any_degree_below_penalty_reproduced: Marsden's identity; data inside the fully supported range, distinct knots - what the generator produces); the numerical reproduction test of the real fit remains",
                         "problems whose normal matrix is not positive definite (a pivot <= 0 in exact elimination) are skipped"]
 
 def replay(ctx, path):
